@@ -13,6 +13,7 @@ Nothing in here touches genshi.
 """
 import re
 
+OPT = '\ue000'      # marks an optional white-space character in the identity reference
 NS_PY = 'http://genshi.edgewall.org/'
 NS_I18N = 'http://genshi.edgewall.org/i18n'
 
@@ -362,17 +363,24 @@ class Ref(object):
         return False
 
     def trimmed(self, kids, skip):
-        """identity catalogue: the content itself, white space at its two edges removed; this
-        does not go through the message format at all"""
+        """identity catalogue: the content itself; the white space at its two edges is *marked*
+        optional (each such character is preceded by OPT): the property allows any of it to be
+        missing.  This does not go through the message format at all."""
         kids = list(kids)
+
+        def mark(ws):
+            return ''.join(OPT + c for c in ws)
         if kids and kids[0][0] == 't':
-            kids[0] = ['t', kids[0][1].lstrip()]
-            if not kids[0][1]:
-                kids.pop(0)
+            t = kids[0][1]
+            rest = t.lstrip()
+            kids[0] = ['t', mark(t[:len(t) - len(rest)]) + rest]
         if kids and kids[-1][0] == 't':
-            kids[-1] = ['t', kids[-1][1].rstrip()]
-            if not kids[-1][1]:
-                kids.pop()
+            t = kids[-1][1]
+            core = t.rstrip()
+            if OPT in core and not core.replace(OPT, '').strip():
+                pass          # a single all-white-space node: already marked from the left
+            else:
+                kids[-1] = ['t', core + mark(t[len(core):])]
 
         def inner(n):
             if n[0] == 'e':
@@ -512,8 +520,10 @@ class Gen(object):
             else:
                 ws.append(r.choice(WORDS))
         s = ' '.join(ws)
-        if 'brackets' in self.hazards and r.random() < 0.3:
-            s += r.choice([' [x]', '[', ']', ' a]b[', '[]'])
+        if r.random() < (0.3 if 'brackets' in self.hazards else 0.06):
+            # brackets in text are escaped by the message format and must come back
+            s += r.choice(['[', ']', '[]', ' [1] ', ' ]-[', ' [7 8]'] if alpha is False else
+                          [' [x]', '[', ']', ' a]b[', '[]', ' [a: b]'])
         if 'backslash' in self.hazards and r.random() < 0.3:
             s += r.choice(['\\', ' \\ ', 'a\\b'])
         if 'percent' in self.hazards and r.random() < 0.3:
@@ -565,9 +575,9 @@ class Gen(object):
             q = r.random()
             if q < 0.65:
                 edge = 0.3 if ('attrws' in self.hazards or name not in self.config['include_attrs']) else 0.0
-                parts = [['t', self.pad(self.words(), edge)]]
+                parts = [['t', self.pad(self.words().strip(), edge)]]
             elif q < 0.75:
-                parts = [['t', self.words(alpha=False)]]
+                parts = [['t', self.words(alpha=False).strip()]]
             elif q < 0.8:
                 parts = [['t', r.choice(['', ' ', '  '])]]
             elif q < 0.9:
